@@ -63,6 +63,14 @@ def variant_more_hosts(sp):
     return v
 
 
+def variant_other_firewall(sp):
+    """the same network, hosts, definitions and sensitive hosts; only the subnet firewall differs: every rule allows
+    exactly the services the original does not"""
+    v = copy.deepcopy(sp)
+    v["fw"] = {k: [s for s in sp["services"] if s not in allowed] for k, allowed in sp["fw"].items()}
+    return v
+
+
 def variant_host_order(sp):
     """the same network with the hosts listed in another order (another address -> row mapping)"""
     v = copy.deepcopy(sp)
@@ -110,6 +118,8 @@ def pairs(tier):
     ps.append(("long_one_sided_history", [S["twins"], S["twins"]]))
     # same layout (bounds, names), another number of hosts in one subnet
     ps.append(("same_layout_other_subnet_sizes", [S["twins"], variant_more_hosts(S["twins"])]))
+    # the same wiring and hosts, complementary firewall rules; both sides try every exploit on the first hosts
+    ps.append(("same_wiring_other_firewall", [S["fw_asym"], variant_other_firewall(S["fw_asym"])]))
     # two large networks (state tensors of more than 1000 cells) that differ only in the middle rows, fully observable
     ps.append(("large_same_layout_middle_rows_differ", [S["big68"], variant_middle(S["big68"])]))
     if tier == "thorough":
@@ -244,6 +254,11 @@ def run_pair(job):
             os.makedirs(pwd)
             ok, plan, _ = checks_plan.greedy_plan(cs, pwd)
             plans[i] = plan or [1, 2, 3]
+            if name.startswith("same_wiring_other_firewall"):
+                # probing: every exploit against the first two hosts, in the same order on both sides
+                ph_ = pyref.per_host(cs)
+                ne_ = len(cs["exploits"])
+                plans[i] = [h_ * ph_ + 4 + j_ + 1 for h_ in range(min(2, len(cs["hosts"]))) for j_ in range(ne_)]
         recs = {i: Recorder(os.path.join(wd, "trace%d.ndjson" % i), len(cs_by[i]["hosts"]), cs=cs_by[i]) for i in cs_by}
         eid = 0
         for sched in scheds:
